@@ -366,6 +366,9 @@ class SVGShape:
         ):
             if l_cmd != r_cmd or len(l_args) != len(r_args):
                 return False
+            # large-arc and sweep are flags, not quantities a tolerance applies to
+            if l_cmd in ("a", "A") and tuple(l_args[3:5]) != tuple(r_args[3:5]):
+                return False
             if any(abs(lv - rv) > tolerance for lv, rv in zip(l_args, r_args)):
                 return False
         return True
